@@ -46,6 +46,25 @@ Proof.
     rewrite (IH r' Hlen T'). rewrite Hf. cbn [filter]. rewrite (Hh ev r' eq_refl). reflexivity.
 Qed.
 
+(* a SELECT with WHERE and without RANGE: on events whose timestamps lie in the default range the result is exactly
+   the sub-list of the unfiltered result on which the closure says true *)
+Definition holds (f : wfun) (ev : event) : bool := match f ev with Ok true => true | _ => false end.
+(* the timestamps of the api: any int64 *)
+Definition int64_ts (ev : event) : Prop := (min_int64 <= ev_ts ev <= default_max_ts)%Z.
+Definition in_range_v (v : bool) (ev : event) : Prop := (min_timestamp v <= ev_ts ev <= default_max_ts)%Z.
+
+Lemma fit_query_v_filter v f l : total_on f l -> Forall (in_range_v v) l -> fit_query_v v f l = Ok (filter (holds f) l).
+Proof.
+  intros T R. unfold fit_query_v. rewrite (fit_drain_filter f (min_timestamp v) default_max_ts (S (List.length l)) l (Nat.lt_succ_diag_r _) T).
+  f_equal. apply filter_ext_in. intros ev Hin. rewrite Forall_forall in R. specialize (R ev Hin). unfold in_range_v in R.
+  unfold accepts, holds, in_range. destruct (f ev) as [[|]| | |]; try reflexivity.
+  destruct R as [R1 R2]. apply Z.leb_le in R1. apply Z.leb_le in R2. rewrite R1, R2. reflexivity.
+Qed.
+
+(* with MinTimestamp = math.MinInt64 the default range is all of int64 *)
+Lemma fit_query_int64 f l : total_on f l -> Forall int64_ts l -> fit_query_v true f l = Ok (filter (holds f) l).
+Proof. intros T R. apply fit_query_v_filter; [exact T|exact R]. Qed.
+
 (* ---------------- Fields.Value on a well-formed encoding = first pair with the name, else "" ---------------- *)
 Definition kvs_ok (kvs : list (bytes * bytes)) : Prop :=
   Forall (fun kv => List.length (fst kv) <= 255 /\ List.length (snd kv) <= 255) kvs.
